@@ -673,7 +673,19 @@ class SymNP:
 
     # constructors ----------------------------------------------------
     @staticmethod
+    def atleast_2d(a):
+        if isinstance(a, SArr):
+            if a.item_shape:
+                return a
+            return SArr([Tok("row", 0, (len(a),))], a.dtype, (len(a),)) \
+                if False else SArr([a], a.dtype, (len(a),))
+        return real_np.atleast_2d(a)
+
+    @staticmethod
     def asarray(a, dtype=None, *args, **kw):
+        if _is_sym(a) and dtype is not None and \
+                real_np.dtype(dtype) == bool:
+            return _asb(a)
         if hasattr(a, "__symarray__"):
             a = a.__symarray__()
         if isinstance(a, (SArr, SMat)):
